@@ -1,5 +1,6 @@
 import Driver.GeoWire
 import Midgard.Model.Kepler
+import Midgard.Model.PosCache
 import Midgard.Generated.PositionSystems
 
 /-! Driver for C07: `trs2kepler`, `kepler2trs`, mean and true anomaly at `Float`;
@@ -42,7 +43,56 @@ def handleF : List String → Option String
     | _ => none
   | _ => none
 
+/-! `c07 hist <op> …`: a history of conversions, views and in-place writes on the model store
+(`Model/PosCache.lean`) with symbolic array values.  Answer: after every operation
+`<id handed out> | <sys>:<cached conversion>:<dependents>,…` (one entry per object), then ` || ` and the value
+term of every object at the end. -/
+section Hist
+open Midgard.Geo.PosCache
+
+def parseOp (st : Store Term) (tok : String) : Option (Op Term) :=
+  match tok.splitOn ":" with
+  | ["n", "t", l] => l.toNat?.map fun n => .new .trs (.lit n)
+  | ["n", "k", l] => l.toNat?.map fun n => .new .kepler (.lit n)
+  | ["c", o] => o.toNat?.map fun o => .toSys o (st.obj o).sys.other
+  | ["o", o] => o.toNat?.map fun o => .toSys o (st.obj o).sys
+  | ["v", o, k] => o.toNat?.map fun o => .view o k
+  | ["t", o, k] => o.toNat?.map fun o => .take o k
+  | ["s", o, k, l] => do
+    let o ← o.toNat?
+    let n ← l.toNat?
+    pure (.set o k (.lit n))
+  | _ => none
+
+/-- the dependents are shown as a set, in increasing order -/
+def showObj (n : Nat) (o : Obj) : String :=
+  let c := match o.cache with
+    | some c => toString c
+    | none => "-"
+  s!"{o.sys.tok}:{c}:{".".intercalate (((List.range n).filter fun j => o.deps.contains j).map toString)}"
+
+def snapshot (st : Store Term) : String :=
+  ",".intercalate ((List.range st.n).map fun i => showObj st.n (st.obj i))
+
+def histLoop : Store Term → List String → List String → Option (Store Term × List String)
+  | st, [], acc => some (st, acc.reverse)
+  | st, tok :: rest, acc => do
+    let op ← parseOp st tok
+    let r := step st op
+    let ret := match r.2 with
+      | some i => toString i
+      | none => "-"
+    histLoop r.1 rest (s!"{ret} | {snapshot r.1}" :: acc)
+
+def handleHist (toks : List String) : Option String := do
+  let (st, steps) ← histLoop (empty (.lit 0)) toks []
+  let terms := (List.range st.n).map fun i => (contents st i).render
+  pure (" ; ".intercalate steps ++ " || " ++ " ; ".intercalate terms)
+
+end Hist
+
 def handle : List String → Option String
+  | "c07" :: "hist" :: toks => handleHist toks
   | ["c07", "gm"] => some (showRat Midgard.Generated.PositionSystems.GM)
   | "c07" :: "q" :: rest => handleAlg (α := Rat) rest
   | "c07" :: "f" :: rest => (handleAlg (α := Float) rest).orElse (fun _ => handleF rest)
